@@ -162,3 +162,10 @@ package p2p
 //@   requires sc != nil
 //@   pure
 //@   ensures result == sc.remPubKey
+
+// decoding of peer bytes is size-limited; an empty message panics on bz[0], which the connection's receive
+// goroutine recovers from (see the defers obligations in gemmill/p2p)
+//@ func DecodeMessage
+//@   props C18 C08
+//@   aborts when [empty-message-confined-by-recover] len(bz) == 0
+//@   atcall ReadBinary assert [decode-is-size-limited] arg_lmt == maxPexMessageSize && arg_lmt > 0
